@@ -452,7 +452,11 @@ func (c10Prop) Gen(seed uint64, tier string, i int) Case {
 	if r.P(0.6) {
 		c.Query = Pick(r, c10Queries)
 	} else {
-		g := &GenCfg{Avoid: mergeAvoid(), MaxDepth: 3, W: c.Window}
+		extra := []string{}
+		if GlobalAvoid["dist:nameless"] {
+			extra = append(extra, "nameless-selector")
+		}
+		g := &GenCfg{Avoid: mergeAvoid(extra...), MaxDepth: 3, W: c.Window}
 		c.Query = GenQuery(r.Fork(), g)
 	}
 	return c
